@@ -28,13 +28,16 @@ func init() {
 			{ID: "R05a", Floor: 4 + 3, Doc: "header arithmetic table (affine evaluation), constants, codec field/byte-range agreement", Run: ruleR05a},
 			{ID: "R05b", Floor: 1 + 2 + 2, Doc: "finalize wiring: parameters used in their roles, call-site arguments, constructor header", Run: ruleR05b},
 			{ID: "R05c", Floor: 4, Doc: "CARv1 mode gates: no pragma, no Finalize, writer base 0", Run: ruleR05c},
-			{ID: "R05d", Floor: 1, Doc: "index written before header, header at PragmaSize (= R06b)", Run: ruleR06b},
+			{ID: "R05d", Floor: 1, Doc: "header (at PragmaSize) on disk before the index goes out (= R06b)", Run: ruleR06b},
 			{ID: "R05e", Floor: 2, Doc: "the index records for each section the writer position taken before its write, after the write succeeded (= R06a)", Run: ruleR06a},
 			{ID: "R05g", Floor: 4, Doc: "the deferred writer creates its file truncating and builds the writer from the caller's inputs (= R20b): in CARv1 mode the file is exactly the payload", Run: ruleR20b},
 			{ID: "R05f", Floor: 1, Doc: "a resumed session's index holds every section already in the file (= R12c)", Run: ruleR12c},
 			{ID: "R05h", Floor: 8, Doc: "sections are framed as uvarint(len) | cid | data, each part by its own checked write (= R01b)", Run: ruleR01b},
 			{ID: "R05i", Floor: 10, Doc: "no new dropped error on the way to a finalized file (= R16h)", Run: ruleR16h},
 			{ID: "R05j", Floor: 8, Doc: "format constants are the specified ones: the 11-byte CARv2 pragma, PragmaSize 11, HeaderSize 40, CharacteristicsSize 16, the no-index codec 0x300000, and the default parser limits (32 MiB header, 8 MiB section, 2 KiB index CID); layout arithmetic everywhere is written in terms of them", Run: ruleR05j},
+			{ID: "R05k", Floor: 1, Doc: "the CLI verifier accepts the index padding the writers produce (= R19k)", Run: ruleR19k},
+			{ID: "R05l", Floor: 2, Doc: "in CARv2 mode a finalize call reports success only as the result of store.Finalize: past the WriteAsCarV1 test there is no `return nil` of its own (a finalize that is skipped leaves the zeroed header and no index that Resume left behind)", Run: ruleR05l},
+			{ID: "R05m", Floor: 2 + 2 + 4, Doc: "put de-duplication decides by CID/multihash, so no block that was put is left out of the finalized file (= R04a)", Run: ruleR04a},
 		},
 	})
 }
@@ -693,5 +696,31 @@ func ruleR05j(c *Ctx, r *Report) {
 	}
 	if !found {
 		r.Undec(key, "-", "var Pragma = []byte{...} not found")
+	}
+}
+
+func ruleR05l(c *Ctx, r *Report) {
+	for _, sp := range []fnSpec{{pkgBS, "ReadWrite", "finalizeReadOnlyWithoutMutex"}, {pkgStorage, "StorageCar", "Finalize"}} {
+		fn, err := c.Func(sp.pkg, sp.recv, sp.name)
+		if err != nil {
+			r.InfraFail("%v", err)
+			continue
+		}
+		key := "v2-success-means-finalized@" + fnKey(fn)
+		v2 := condEdges(fn, matchFieldCond(modV2, "Options", "WriteAsCarV1", false))
+		if len(v2) == 0 {
+			r.Undec(key, c.Pos(fn.Pos()), "no test of Options.WriteAsCarV1 found")
+			continue
+		}
+		bad := ""
+		for _, e := range v2 {
+			rs := reachFromEdge(fn, e, nil)
+			for _, ret := range returnsOf(fn) {
+				if rs[ret.Block()] && len(ret.Results) == 1 && resultIsNilConst(ret, 0) {
+					bad = fmt.Sprintf("in CARv2 mode the return at %s reports success without store.Finalize having written index and header", c.Pos(ret.Pos()))
+				}
+			}
+		}
+		r.Check(bad == "", key, c.Pos(fn.Pos()), "past the CARv1 test, success is only the result of store.Finalize", bad)
 	}
 }
